@@ -11,6 +11,7 @@ import EinoV.Model.C03
 import EinoV.Proofs.C03
 import EinoV.Gen.FactsC03
 import EinoV.Expected.C03
+import EinoV.Proofs.C03Engine
 
 namespace EinoV.C03
 open EinoV.Gen
@@ -388,5 +389,19 @@ theorem resolve_needs_distinct_keys :
     let a : CTask Nat := ⟨"a", [], ["c"], [], 1⟩
     let a' : CTask Nat := ⟨"a", [], ["c"], [], 2⟩
     cellOf [a, a'] "c" "a" ≠ cellOf [a', a] "c" "a" := by decide
+
+/-- **pregel_run_schedule_independent** (engine level). For every any-predecessor runner of the
+    engine model (`Model/Engine.lean`) with distinct keys and an order-insensitive merge: a run
+    that succeeds under one fair completion schedule is *the same run* — same result, same
+    per-step trace with the same inputs — under every other fair schedule.  (Which of several
+    failures is reported may depend on the schedule; that is why the statement is about
+    successful runs.)  Proof: `run_pregel` (the engine is the superstep specification) and
+    permutation invariance of one superstep. -/
+theorem pregel_run_schedule_independent {V : Type} (ops : EinoV.Engine.ValOps V) (hm : EinoV.Engine.MergePerm ops)
+    (r : EinoV.Engine.Runner V) (h : r.dag = false) (hk : (EinoV.Spec.keys r).Nodup)
+    (sched sched' : EinoV.Engine.Sched V) (hf : sched.Fair) (hf' : sched'.Fair) (x v : V)
+    (hok : (EinoV.Engine.runS ops r sched x).result = .ok v) :
+    EinoV.Engine.runS ops r sched' x = EinoV.Engine.runS ops r sched x :=
+  EinoV.Engine.pregel_run_sched_independent ops hm r h hk sched sched' hf hf' x v hok
 
 end EinoV.C03
